@@ -377,7 +377,7 @@ def fixed_corpus():
                    subpatterns=[('inner', '[^"]'), ('any', '.'), ('ws', '\\s')], origin='fixed:subpatterns'))
     out.append(Def([L('regex', '(?&letter)+'), L('token', '=')], subpatterns=[('letter', '[a-zα-ωé]')], origin='fixed:subpatterns2'))
     # stack probes: single-character skips, long tokens
-    out.append(Def([L('skip', 'x'), L('regex', 'a+'), L('token', 'b'), L('regex', 'c[a-z]*d')], origin='fixed:stack'))
+    out.append(Def([L('skip', 'x'), L('regex', 'a+'), L('token', 'b'), L('regex', 'c[a-z]*d'), L('regex', 'y', cb=3), L('skip', 'w+', cb=17)], origin='fixed:stack'))
     # nested repetitions (exponential for backtrackers)
     out.append(Def([L('regex', '(a+)+b'), L('regex', '(a|aa)+c'), L('regex', '(a*)*d')], origin='fixed:nested'))
     FIXED.extend(out)
